@@ -740,7 +740,15 @@ class ProgGen:
         oob = False
         while ("core" not in self.features or "agg" in self.features) and self.rng.random() < (0.9 if oob else 0.6):
             k = ty["k"]
-            if k == "array" and ty["n"] > 0:
+            if k == "array" and ty["n"] == 0 and "zero" in self.features:
+                # an element of an array without elements: every index is out of bounds (the accessors that follow are
+                # still compiled)
+                i = self.val_expr(USIZE, self.rng.choice([0, 1]))
+                oob = True
+                text += f"[{self.index_text(i)}]"
+                path.append(["i", i.ast])
+                ty = ty["elem"]
+            elif k == "array" and ty["n"] > 0:
                 r = self.rng.random()
                 if oob and r < 0.75 or r > (0.95 if self.stress else 0.985):
                     # an index expression that fails itself; after an index that is out of bounds the access to the
